@@ -2,9 +2,9 @@ from __future__ import annotations
 
 from abc import ABC, abstractmethod
 from dataclasses import dataclass, field
-from typing import Literal, TYPE_CHECKING
+from typing import Iterator, Literal, TYPE_CHECKING
 from sigma.correlations import SigmaCorrelationRule
-from sigma.types import SigmaFieldReference, SigmaType
+from sigma.types import SigmaExpansion, SigmaFieldReference, SigmaType
 from sigma.rule import (
     SigmaDetection,
     SigmaRule,
@@ -145,7 +145,15 @@ class ValueProcessingCondition(DetectionItemProcessingCondition):
         self,
         detection_item: SigmaDetectionItem,
     ) -> bool:
-        return self.match_func((self.match_value(value) for value in detection_item.value))
+        return self.match_func((self.match_value(value) for value in self._values(detection_item.value)))
+
+    def _values(self, values: list[SigmaType]) -> Iterator[SigmaType]:
+        """Values of a detection item, the ones a modifier expanded (windash, base64offset) included."""
+        for value in values:
+            if isinstance(value, SigmaExpansion):
+                yield from self._values(value.values)
+            else:
+                yield value
 
     @abstractmethod
     def match_value(self, value: SigmaType) -> bool:
